@@ -462,6 +462,8 @@ def run_r(res, module_names, select=None, root=None, seed=0):
     todo = [u for u in units if not (select and not select(u.name))]
     global _R_JOB
     _R_JOB = (root, todo, contracts, seed)
+    # C17 demands rejection of malformed input and no panic, not a particular set of accepted encodings: additional error returns are allowed
+    ring.EXITS_MODE = "no_missing_rejection" if res.pid in ("C17",) else "exact"
     if len(todo) >= 4 and os.environ.get("VERIF_R_SERIAL") != "1":
         # units are independent: fork a pool (the units hold closures, so workers address them by index)
         import multiprocessing as mp
